@@ -27,6 +27,9 @@ use upgrader::{Upgrader, UpgraderClient};
 pub type Call = Rc<dyn Fn(&Env) -> Result<(), String>>;
 
 pub struct Ep {
+    /// the statement leaves open whether the holder's own call succeeds in this state
+    /// (e.g. owner minting while the owner is not a minter); everybody else must still fail
+    pub holder_may_fail: bool,
     pub name: String,
     pub role: &'static str,
     pub call: Call,
@@ -64,11 +67,12 @@ fn open_window(addr: &Address) -> Rc<dyn Fn(&mut U)> {
 }
 
 /// The three entry points every upgradable + ownable contract has.
-fn common_eps(prefix: &str, addr: &Address, newcomer: &Address, other: &Address, other_hash: &BytesN<32>, migrate_string: bool) -> Vec<Ep> {
+fn common_eps(prefix: &str, addr: &Address, newcomer: &Address, other: &Address, other_hash: &BytesN<32>, migrate_string: bool, current_owner: Option<&Address>) -> Vec<Ep> {
     let mut v = Vec::new();
     let (a, n, o) = (addr.clone(), newcomer.clone(), other.clone());
     let (a2, o2) = (addr.clone(), other.clone());
     v.push(Ep {
+        holder_may_fail: false,
         name: format!("{}.transfer_ownership", prefix),
         role: "owner",
         call: Rc::new(move |env: &Env| flat(OwnableClient::new(env, &a).try_transfer_ownership(&n))),
@@ -77,8 +81,22 @@ fn common_eps(prefix: &str, addr: &Address, newcomer: &Address, other: &Address,
         prep: None,
     });
     let _ = o;
+    // naming the current holder as successor is still an administrative call
+    if let Some(cur) = current_owner {
+        let (a, c) = (addr.clone(), cur.clone());
+        v.push(Ep {
+            holder_may_fail: false,
+            name: format!("{}.transfer_ownership(to-current-owner)", prefix),
+            role: "owner",
+            call: Rc::new(move |env: &Env| flat(OwnableClient::new(env, &a).try_transfer_ownership(&c))),
+            other_args: None,
+            beneficiary: None,
+            prep: None,
+        });
+    }
     let (a, a2, oh) = (addr.clone(), addr.clone(), other_hash.clone());
     v.push(Ep {
+        holder_may_fail: false,
         name: format!("{}.upgrade", prefix),
         role: "owner",
         call: Rc::new(move |env: &Env| flat(UpgradableClient::new(env, &a).try_upgrade(&native_hash(env)))),
@@ -87,6 +105,7 @@ fn common_eps(prefix: &str, addr: &Address, newcomer: &Address, other: &Address,
         prep: None,
     });
     v.push(Ep {
+        holder_may_fail: false,
         name: format!("{}.migrate", prefix),
         role: "owner",
         call: migrate_call(addr, migrate_string),
@@ -191,6 +210,9 @@ pub fn matrix(rep: &mut Report, u: &mut U, ep: &Ep, holder: &Address, formers: &
             ok_all = false;
             continue;
         }
+        if class == "holder" && ep.holder_may_fail {
+            continue;
+        }
         if o.ok() != must_ok {
             if o.ok() {
                 rep.violation(
@@ -248,11 +270,18 @@ pub fn run(ctx: &Ctx, rep: &mut Report) {
                 };
                 let owner = owners.last().unwrap().clone();
                 let operator = operators.last().unwrap().clone();
-                let mut eps = common_eps("gateway", &g.addr, &newcomer, &other, &other_hash, false);
+                let mut eps = common_eps("gateway", &g.addr, &newcomer, &other, &other_hash, false, Some(&owner));
                 let (a, n) = (g.addr.clone(), newcomer.clone());
                 let (a2, o2) = (g.addr.clone(), other.clone());
+                let to_self_op = {
+                    let (a, c) = (g.addr.clone(), operator.clone());
+                    Ep { holder_may_fail: false, name: "gateway.transfer_operatorship(to-current-operator)".into(), role: "operator",
+                         call: Rc::new(move |env: &Env| flat(OperatableClient::new(env, &a).try_transfer_operatorship(&c))), other_args: None, beneficiary: None, prep: None }
+                };
+                matrix(rep, &mut u, &to_self_op, &operator, &operators[..operators.len() - 1], Some(&owner), &stranger, history);
                 let op_eps = vec![
                     Ep {
+                        holder_may_fail: false,
                         name: "gateway.transfer_operatorship".into(),
                         role: "operator",
                         call: Rc::new(move |env: &Env| flat(OperatableClient::new(env, &a).try_transfer_operatorship(&n))),
@@ -267,6 +296,7 @@ pub fn run(ctx: &Ctx, rep: &mut Report) {
                         let plan2 = plan_honest(&ring, &g.model.domain, &set, &cand2.rotation_data_hash(), &all_slots(&set));
                         let (a, a2) = (g.addr.clone(), g.addr.clone());
                         Ep {
+                            holder_may_fail: false,
                             name: "gateway.rotate_signers(bypass)".into(),
                             role: "operator",
                             call: Rc::new(move |env: &Env| flat(AxelarGatewayClient::new(env, &a).try_rotate_signers(&sdk_signers(env, &cand), &sdk_proof(env, &plan), &true))),
@@ -283,6 +313,7 @@ pub fn run(ctx: &Ctx, rep: &mut Report) {
                     let plan2 = plan_honest(&ring, &g.model.domain, &old_set, &cand2.rotation_data_hash(), &all_slots(&old_set));
                     let (a, a2) = (g.addr.clone(), g.addr.clone());
                     Ep {
+                        holder_may_fail: false,
                         name: "gateway.rotate_signers(bypass,older-retained-set)".into(),
                         role: "operator",
                         call: Rc::new(move |env: &Env| flat(AxelarGatewayClient::new(env, &a).try_rotate_signers(&sdk_signers(env, &cand), &sdk_proof(env, &plan), &true))),
@@ -320,7 +351,7 @@ pub fn run(ctx: &Ctx, rep: &mut Report) {
                     None => continue,
                 };
                 let owner = owners.last().unwrap().clone();
-                let eps = common_eps("gas-service", &gs, &newcomer, &other, &other_hash, false);
+                let eps = common_eps("gas-service", &gs, &newcomer, &other, &other_hash, false, Some(&owner));
                 for ep in &eps {
                     matrix(rep, &mut u, ep, &owner, &owners[..owners.len() - 1], Some(&collector), &stranger, history);
                 }
@@ -350,10 +381,10 @@ pub fn run(ctx: &Ctx, rep: &mut Report) {
                     })
                 };
                 let c_eps = vec![
-                    Ep { name: "gas-service.collect_fees(receiver=collector)".into(), role: "gas collector", call: mk_self(10, false), other_args: Some(mk_self(11, false)), beneficiary: None, prep: None },
-                    Ep { name: "gas-service.refund(receiver=collector)".into(), role: "gas collector", call: mk_self(10, true), other_args: Some(mk_self(11, true)), beneficiary: None, prep: None },
-                    Ep { name: "gas-service.collect_fees".into(), role: "gas collector", call: mk(10, false), other_args: Some(mk(11, false)), beneficiary: Some(receiver.clone()), prep: None },
-                    Ep { name: "gas-service.refund".into(), role: "gas collector", call: mk(10, true), other_args: Some(mk(11, true)), beneficiary: Some(receiver.clone()), prep: None },
+                    Ep { holder_may_fail: false, name: "gas-service.collect_fees(receiver=collector)".into(), role: "gas collector", call: mk_self(10, false), other_args: Some(mk_self(11, false)), beneficiary: None, prep: None },
+                    Ep { holder_may_fail: false, name: "gas-service.refund(receiver=collector)".into(), role: "gas collector", call: mk_self(10, true), other_args: Some(mk_self(11, true)), beneficiary: None, prep: None },
+                    Ep { holder_may_fail: false, name: "gas-service.collect_fees".into(), role: "gas collector", call: mk(10, false), other_args: Some(mk(11, false)), beneficiary: Some(receiver.clone()), prep: None },
+                    Ep { holder_may_fail: false, name: "gas-service.refund".into(), role: "gas collector", call: mk(10, true), other_args: Some(mk(11, true)), beneficiary: Some(receiver.clone()), prep: None },
                 ];
                 for ep in &c_eps {
                     matrix(rep, &mut u, ep, &collector, &[], Some(&owner), &stranger, history);
@@ -382,9 +413,10 @@ pub fn run(ctx: &Ctx, rep: &mut Report) {
                     None => continue,
                 };
                 let owner = owners.last().unwrap().clone();
-                let mut eps = common_eps("operators", &oc, &newcomer, &other, &other_hash, false);
+                let mut eps = common_eps("operators", &oc, &newcomer, &other, &other_hash, false, Some(&owner));
                 let (a, c, a2, o2) = (oc.clone(), cand.clone(), oc.clone(), other.clone());
                 eps.push(Ep {
+                    holder_may_fail: false,
                     name: "operators.add_operator".into(),
                     role: "owner",
                     call: Rc::new(move |env: &Env| flat(AxelarOperatorsClient::new(env, &a).try_add_operator(&c))),
@@ -394,6 +426,7 @@ pub fn run(ctx: &Ctx, rep: &mut Report) {
                 });
                 let (a, m) = (oc.clone(), member.clone());
                 eps.push(Ep {
+                    holder_may_fail: false,
                     name: "operators.remove_operator".into(),
                     role: "owner",
                     call: Rc::new(move |env: &Env| flat(AxelarOperatorsClient::new(env, &a).try_remove_operator(&m))),
@@ -419,7 +452,7 @@ pub fn run(ctx: &Ctx, rep: &mut Report) {
                     None => continue,
                 };
                 let owner = owners.last().unwrap().clone();
-                let mut eps = common_eps("its", &w.its, &newcomer, &other, &other_hash, false);
+                let mut eps = common_eps("its", &w.its, &newcomer, &other, &other_hash, false, Some(&owner));
                 let mk = |chain: &'static [u8], add: bool| -> Call {
                     let a = w.its.clone();
                     Rc::new(move |env: &Env| {
@@ -431,8 +464,8 @@ pub fn run(ctx: &Ctx, rep: &mut Report) {
                         }
                     })
                 };
-                eps.push(Ep { name: "its.set_trusted_chain".into(), role: "owner", call: mk(b"avalanche", true), other_args: Some(mk(b"polygon", true)), beneficiary: None, prep: None });
-                eps.push(Ep { name: "its.remove_trusted_chain".into(), role: "owner", call: mk(b"ethereum", false), other_args: None, beneficiary: None, prep: None });
+                eps.push(Ep { holder_may_fail: false, name: "its.set_trusted_chain".into(), role: "owner", call: mk(b"avalanche", true), other_args: Some(mk(b"polygon", true)), beneficiary: None, prep: None });
+                eps.push(Ep { holder_may_fail: false, name: "its.remove_trusted_chain".into(), role: "owner", call: mk(b"ethereum", false), other_args: None, beneficiary: None, prep: None });
                 let stranger = w.stranger.clone();
                 let gw_owner = sc_addr(&w.gs_collector);
                 let other_role = addr_of(&w.u.env, &gw_owner);
@@ -457,9 +490,10 @@ pub fn run(ctx: &Ctx, rep: &mut Report) {
                     None => continue,
                 };
                 let owner = owners.last().unwrap().clone();
-                let mut eps = common_eps("interchain-token", &tk, &newcomer, &other, &other_hash, false);
+                let mut eps = common_eps("interchain-token", &tk, &newcomer, &other, &other_hash, false, Some(&owner));
                 let (a, n, a2, o2) = (tk.clone(), newcomer.clone(), tk.clone(), other.clone());
                 eps.push(Ep {
+                    holder_may_fail: false,
                     name: "interchain-token.set_admin".into(),
                     role: "owner",
                     call: Rc::new(move |env: &Env| flat(InterchainTokenClient::new(env, &a).try_set_admin(&n))),
@@ -469,6 +503,7 @@ pub fn run(ctx: &Ctx, rep: &mut Report) {
                 });
                 let (a, n, a2, o2) = (tk.clone(), newcomer.clone(), tk.clone(), other.clone());
                 eps.push(Ep {
+                    holder_may_fail: false,
                     name: "interchain-token.add_minter".into(),
                     role: "owner",
                     call: Rc::new(move |env: &Env| flat(InterchainTokenClient::new(env, &a).try_add_minter(&n))),
@@ -478,6 +513,7 @@ pub fn run(ctx: &Ctx, rep: &mut Report) {
                 });
                 let (a, m) = (tk.clone(), minter.clone());
                 eps.push(Ep {
+                    holder_may_fail: false,
                     name: "interchain-token.remove_minter".into(),
                     role: "owner",
                     call: Rc::new(move |env: &Env| flat(InterchainTokenClient::new(env, &a).try_remove_minter(&m))),
@@ -490,6 +526,7 @@ pub fn run(ctx: &Ctx, rep: &mut Report) {
                 let owner_c = owner.clone();
                 let tk2 = tk.clone();
                 eps.push(Ep {
+                    holder_may_fail: false,
                     name: "interchain-token.mint".into(),
                     role: "owner",
                     call: Rc::new(move |env: &Env| flat(InterchainTokenClient::new(env, &a).try_mint(&n, &5))),
@@ -502,6 +539,24 @@ pub fn run(ctx: &Ctx, rep: &mut Report) {
                         });
                     })),
                 });
+                {
+                    let (a, n) = (tk.clone(), newcomer.clone());
+                    let (tk3, owner3) = (tk.clone(), owner.clone());
+                    eps.push(Ep {
+                        holder_may_fail: true,
+                        name: "interchain-token.mint(owner-not-a-minter)".into(),
+                        role: "owner",
+                        call: Rc::new(move |env: &Env| flat(InterchainTokenClient::new(env, &a).try_mint(&n, &5))),
+                        other_args: None,
+                        beneficiary: Some(newcomer.clone()),
+                        prep: Some(Rc::new(move |u: &mut U| {
+                            let (t, o) = (tk3.clone(), owner3.clone());
+                            u.setup(move |env| {
+                                InterchainTokenClient::new(env, &t).remove_minter(&o);
+                            });
+                        })),
+                    });
+                }
                 for ep in &eps {
                     matrix(rep, &mut u, ep, &owner, &owners[..owners.len() - 1], Some(&minter), &stranger, history);
                 }
@@ -528,7 +583,7 @@ pub fn run(ctx: &Ctx, rep: &mut Report) {
                         flat_any(UpgraderClient::new(env, &up).try_upgrade(&t, &sstr(env, ver), &native_hash(env), &data))
                     })
                 };
-                let ep = Ep { name: "upgrader.upgrade".into(), role: "target's owner", call: mk(b"5.0.0"), other_args: Some(mk(b"6.0.0")), beneficiary: None, prep: None };
+                let ep = Ep { holder_may_fail: false, name: "upgrader.upgrade".into(), role: "target's owner", call: mk(b"5.0.0"), other_args: Some(mk(b"6.0.0")), beneficiary: None, prep: None };
                 matrix(rep, &mut u, &ep, &owner, &owners[..owners.len() - 1], None, &stranger, history);
             }
         }
@@ -545,11 +600,11 @@ pub fn run(ctx: &Ctx, rep: &mut Report) {
         "operators.transfer_ownership", "operators.upgrade", "operators.migrate", "operators.add_operator", "operators.remove_operator",
         "its.transfer_ownership", "its.upgrade", "its.migrate", "its.set_trusted_chain", "its.remove_trusted_chain",
         "interchain-token.transfer_ownership", "interchain-token.set_admin", "interchain-token.upgrade", "interchain-token.migrate",
-        "interchain-token.add_minter", "interchain-token.remove_minter", "interchain-token.mint", "upgrader.upgrade",
+        "interchain-token.add_minter", "interchain-token.remove_minter", "interchain-token.mint", "interchain-token.mint(owner-not-a-minter)", "gateway.transfer_ownership(to-current-owner)", "interchain-token.transfer_ownership(to-current-owner)", "gateway.transfer_operatorship(to-current-operator)", "upgrader.upgrade",
     ] {
         req.push(format!("ep:{}", e));
     }
     rep.notes.insert("required".into(), json!(req));
-    rep.notes.insert("bounds".into(), json!({"contracts": CONTRACTS, "role_histories": HISTORIES, "entry_points": 31, "principals": ["holder", "each former holder", "holder of another role", "beneficiary named in the arguments", "stranger", "nobody", "holder but authorising other arguments"]}));
-    rep.notes.insert("rule".into(), json!("finite matrix enumerated completely: 31 administrative entry points (the delay bypass both with the newest and with an older retained signer set; fee collection and refunds both to a third party and to the collector itself) (6 contracts) x 5 role-transfer histories (fresh, A->B, A->B->A, A->A, A->B->C; performed with the exact current holder's authorisation and checked with the role getters) x up to 8 principals. For each cell the authorisation forest the code asks for is recorded, then the call is replayed at a checkpoint with the forest signed by the chosen principal (or withheld, or recorded for other arguments); only the current holder's exact authorisation may succeed, every refused call is diffed against the pre-state. distinct = (entry point, history, principal class, outcome)"));
+    rep.notes.insert("bounds".into(), json!({"contracts": CONTRACTS, "role_histories": HISTORIES, "entry_points": 38, "principals": ["holder", "each former holder", "holder of another role", "beneficiary named in the arguments", "stranger", "nobody", "holder but authorising other arguments"]}));
+    rep.notes.insert("rule".into(), json!("finite matrix enumerated completely: 38 administrative entry points (role transfers also with the current holder named as successor; owner minting also while the owner is not a minter; the delay bypass both with the newest and with an older retained signer set; fee collection and refunds both to a third party and to the collector itself) (6 contracts) x 5 role-transfer histories (fresh, A->B, A->B->A, A->A, A->B->C; performed with the exact current holder's authorisation and checked with the role getters) x up to 8 principals. For each cell the authorisation forest the code asks for is recorded, then the call is replayed at a checkpoint with the forest signed by the chosen principal (or withheld, or recorded for other arguments); only the current holder's exact authorisation may succeed, every refused call is diffed against the pre-state. distinct = (entry point, history, principal class, outcome)"));
 }
